@@ -45,12 +45,12 @@ type seqCase struct {
 	lastFlushPath string
 	flushes       int
 
-	maxSegFiles        int
-	advancedWithPend   bool
-	reopens, purges    int
-	resizes, rejected  int
-	loweredBelowBlock  bool
-	stop               bool
+	maxSegFiles       int
+	advancedWithPend  bool
+	reopens, purges   int
+	resizes, rejected int
+	loweredBelowBlock bool
+	stop              bool
 }
 
 // purgeEpoch is a fixed instant far in the past: segment mtimes are set
